@@ -47,6 +47,12 @@ def f64Bits (n : Nat) : Nat :=
   if l ≤ 52 then n
   else (l - 52) * 2 ^ 52 + ((n >>> (l - 53)) - 2 ^ 52)
 
+/-- inverse of `f64Bits` on non-negative finite doubles -/
+def f64Unbits (b : Nat) : Nat :=
+  let e := (b >>> 52) % 2048
+  let m := b % 2 ^ 52
+  if e = 0 then m else (2 ^ 52 + m) * 2 ^ (e - 1)
+
 /-- decimal digits of `n`, left-padded with zeros to width `w` -/
 def padDigits (w n : Nat) : List Nat :=
   let ds := (Nat.toDigits 10 n).map fun c => c.toNat
